@@ -127,6 +127,16 @@ def generate(seed, tier):
         from sim import byz
         sc['byz'] = {'kind': r.choice(byz.KINDS_C11), 'seed': r.randrange(2 ** 31)}
         sc['meta']['byz'] = sc['byz']['kind']
+        if sc['byz']['kind'] == 'invalid_ke_cross_offer':
+            # IKE_SA and CHILD_SAs (PFS) use different groups; CHILD_SAs expire soon (their rekeys are CREATE_CHILD_SA exchanges with PFS started
+            # by the IKE_SA that will later rekey itself), the IKE_SA a little later
+            ike_g, pfs_g = r.choice([('14', '19'), ('19', '14'), ('20', '19'), ('14', '15')])
+            for c in (ca, cb):
+                c['dh'] = [ike_g]
+                c['lifetime'] = r.choice([14, 20])
+                for p_ in c['protect']:
+                    p_['dh'] = [pfs_g]
+                    p_['lifetime'] = r.choice([4, 6])
         if sc['byz']['kind'] == 'invalid_ke_never_offered' and r.random() < 0.6:
             # group numbers that collide with identifiers of OTHER transform types are the adversary's best bet (only 14 = sha512 is an
             # implemented group): offer sha512 without offering group 14
